@@ -210,6 +210,17 @@ pub fn run(tier: Tier) -> i32 {
     if rep.machinery.is_none() {
         super::ackworld::run_c08(&mut rep, tier);
     }
+    // scale class: a message of more than 2^16 slices (slice indices beyond two bytes); three packets are lost once
+    {
+        let cases: Vec<(bool, usize)> = tier.pick(vec![(true, 66_000)], vec![(true, 65_537), (true, 66_000), (false, 66_000), (true, 131_100)]);
+        let res = crate::explore::par_cases(cases.len(), |i| huge_message_case(cases[i].0, cases[i].1));
+        for (i, r) in res.into_iter().enumerate() {
+            if let Some(v) = r {
+                rep.violation("huge-message", v, J::obj().set("kind", J::s("huge-message")).set("ordered", J::Bool(cases[i].0)).set("slices", J::i(cases[i].1 as u64)));
+            }
+        }
+        rep.add_sweep("huge-message", cases.len() as u64, cases.len() as u64, 1, vec![format!("(ordered, slices) in {:?}: the packets carrying slices 0, 463 and 65535 are lost once; released only when the peer has every slice, delivered intact", cases)]);
+    }
     if rep.machinery.is_none() {
         rep.rule("M1 (API soup): every interleaving up to depth D of send / update / flush / deliver / drop / duplicate / receive with <= 3 packets in flight per direction (ordered and unordered channel); release oracle after every call");
         super::soup::run_soup(&mut rep, tier, "soup-ordered", Kind::Ordered, super::soup::O_RELEASE, &["C08/"]);
@@ -218,7 +229,106 @@ pub fn run(tier: Tier) -> i32 {
     rep.finish()
 }
 
+/// One message of `n` slices; the packets carrying slices 0, 463 and 65535 are lost the first time.
+pub fn huge_message_case(ordered: bool, n: usize) -> Option<Violation> {
+    use crate::link::{decode, PktInfo};
+    use renet::{ChannelConfig, ConnectionConfig, RenetClient, RenetServer, SendType};
+    use std::time::Duration;
+    let len = n * 1200 - 77;
+    let budget = len + 4096;
+    let chans = || {
+        vec![ChannelConfig {
+            channel_id: 0,
+            max_memory_usage_bytes: budget,
+            send_type: if ordered { SendType::ReliableOrdered { resend_time: Duration::from_millis(300) } } else { SendType::ReliableUnordered { resend_time: Duration::from_millis(300) } },
+        }]
+    };
+    let cfg = || ConnectionConfig { available_bytes_per_tick: 2 * budget as u64, server_channels_config: chans(), client_channels_config: chans() };
+    let byte = |i: usize| ((i / 1200) as u32).wrapping_mul(2_654_435_761).to_le_bytes()[1].wrapping_add((i % 1200) as u8);
+    let lost_idx = [0usize, 463, 65_535];
+    let r = crate::link::guard("huge message", || {
+        let mut srv = RenetServer::new(cfg());
+        let mut cl = RenetClient::new(cfg());
+        srv.add_connection(1);
+        cl.set_connected();
+        let body: Vec<u8> = (0..len).map(byte).collect();
+        srv.send_message(1, 0u8, body);
+        let dt = Duration::from_millis(100);
+        let mut got: Option<Vec<u8>> = None;
+        let mut handed = vec![false; n];
+        let mut dropped = vec![false; n];
+        for tick in 0..10u32 {
+            srv.update(dt);
+            cl.update(dt);
+            let pk = srv.get_packets_to_send(1).unwrap_or_default();
+            for p in pk {
+                if let (_, PktInfo::ReliableSlice { idx, .. }, _) = decode(&p) {
+                    if lost_idx.contains(&idx) && !dropped[idx] {
+                        dropped[idx] = true;
+                        continue;
+                    }
+                    if idx < n {
+                        handed[idx] = true;
+                    }
+                }
+                cl.process_packet(&p);
+            }
+            for p in cl.get_packets_to_send() {
+                let _ = srv.process_packet_from(&p, 1);
+            }
+            if let Some(m) = cl.receive_message(0u8) {
+                got = Some(m.to_vec());
+            }
+            // release only after every slice was handed over
+            if srv.channel_available_memory(1, 0u8) == budget && !handed.iter().all(|h| *h) {
+                let missing = handed.iter().position(|h| !*h).unwrap();
+                return Some(Violation::new(
+                    "C08/huge-message/released-before-the-peer-has-every-slice",
+                    format!("tick {}: the sender gave the {} byte message's memory back although slice {} (of {}) was never handed to the peer", tick, len, missing, n),
+                ));
+            }
+        }
+        if cl.is_disconnected() || !srv.is_connected(1) {
+            return Some(Violation::new("C08/huge-message/disconnected", format!("{} slices: client {:?} server {:?}", n, cl.disconnect_reason(), srv.disconnect_reason(1))));
+        }
+        match got {
+            None => Some(Violation::new(
+                "C08/huge-message/lost-slices-never-retransmitted",
+                format!("{} slices, slices {:?} lost once: after 10 ticks (resend time 300 ms) the message has not arrived; slices handed over: {}, sender memory back: {}", n, lost_idx, handed.iter().filter(|h| **h).count(), srv.channel_available_memory(1, 0u8) == budget),
+            )),
+            Some(m) => {
+                if m.len() != len || m.iter().enumerate().any(|(i, b)| *b != byte(i)) {
+                    return Some(Violation::new("C08/huge-message/content", format!("{} slices: obtained {} bytes, not identical to the {} submitted", n, m.len(), len)));
+                }
+                if srv.channel_available_memory(1, 0u8) != budget {
+                    return Some(Violation::new("C08/huge-message/not-released", format!("{} slices delivered and acknowledged, sender memory not back", n)));
+                }
+                None
+            }
+        }
+    });
+    match r {
+        Ok(v) => v,
+        Err(v) => Some(v),
+    }
+}
+
 pub fn replay(j: &J) -> i32 {
+    if j.get("kind").and_then(|k| k.as_str()) == Some("huge-message") {
+        let ordered = matches!(j.get("ordered"), Some(J::Bool(true)));
+        let n = j.get("slices").and_then(|x| x.as_i()).unwrap_or(66_000) as usize;
+        println!("huge message case: {} slices, ordered {}", n, ordered);
+        return match huge_message_case(ordered, n) {
+            Some(v) => {
+                println!("RESULT: violation {} — {}", v.signature, v.message);
+                1
+            }
+            None => {
+                println!("RESULT: no violation");
+                0
+            }
+        };
+    }
     let tier = match j.get("tier").and_then(|t| t.as_str()) {
         Some("thorough") => Tier::Thorough,
         _ => Tier::Quick,
